@@ -1,5 +1,338 @@
-//! Conformance harness for specification-growth module g11 (see /verif/DESIGN.md 12.6).
+//! Conformance harness for specification-growth module G11 (command prompts
+//! and what an interactive shell writes around the lines it reads), see
+//! spec/Prompt.tla.
+//!
+//! `yv-g11 replay --in GEN.ndjson --out MISMATCHES.ndjson [--threads T]`
+//!     spec -> impl: every line of GEN is a session printed by Gen_Prompt
+//!     (how to start the shell, the input chunks, the pattern of standard
+//!     error, standard output, probe events) or a call-level case (family
+//!     "call": a prompt string for `yash_prompt::expand_posix` / `Prompter`).
+//!     The session is run by the real shell on the simulated OS.
+//! `yv-g11 random --n N --out TRACE.ndjson [--threads T]`
+//!     impl -> spec: N seeded random sessions are typed and run; the
+//!     observations are written for Trace_Prompt to judge.
+//! `yv-g11 one --in SESSION.json --out TRACE.ndjson`
+//!     one session (`{"cfg": {...}, "es": [...]}`), same record as `random`.
+//! `yv-g11 demo --cfg JSON`   ad-hoc run (debugging)
+mod pat;
+mod run;
+mod scen;
+
+use rand::SeedableRng;
+use run::{SessCfg, SessOut, out_json, run_call, run_session};
+use scen::{Cfg, Ev};
+use serde_json::{Value, json};
+use std::collections::BTreeMap;
+use std::io::{BufRead, Write};
+use std::sync::Mutex;
+use std::sync::atomic::{AtomicUsize, Ordering};
+use yvcommon::util::{self, opt, opt_usize};
+
+fn strs(v: &Value) -> Vec<String> {
+    v.as_array().map(|a| a.iter().map(|x| x.as_str().unwrap_or("").to_string()).collect()).unwrap_or_default()
+}
+
+fn clip(s: &str, n: usize) -> String {
+    if s.len() <= n {
+        s.to_string()
+    } else {
+        let mut k = n;
+        while !s.is_char_boundary(k) {
+            k -= 1;
+        }
+        if n <= 16 { s[..k].to_string() } else { format!("{}...[{} bytes]", &s[..k], s.len()) }
+    }
+}
+
+/// How the shell is started for a session.
+fn sess_cfg(src: &str, tin: bool, terr: bool, args: &[String], env: &[(String, String)], chunks: &[String], rc: &str) -> SessCfg {
+    let mut argv = vec!["yash".to_string()];
+    argv.extend(args.iter().cloned());
+    let mut chunks: Vec<Vec<u8>> = chunks.iter().map(|s| s.as_bytes().to_vec()).collect();
+    // end-of-file conditions after the last chunk need no chunk of their own
+    while chunks.len() > 1 && chunks.last().map(|c| c.is_empty()).unwrap_or(false) {
+        chunks.pop();
+    }
+    let mut script = None;
+    match src {
+        "cmd" => {
+            argv.push("-c".into());
+            argv.push(String::from_utf8_lossy(&chunks.concat()).into_owned());
+            chunks.clear();
+        }
+        "file" => {
+            argv.push("/tmp/script".into());
+            script = Some(chunks.concat());
+            chunks.clear();
+        }
+        _ => {}
+    }
+    SessCfg { argv, stdin_tty: tin, stderr_tty: terr, chunks, script, env: env.to_vec(),
+              rc: if rc.is_empty() { None } else { Some(rc.as_bytes().to_vec()) } }
+}
+
+fn events_of(o: &SessOut) -> Vec<Vec<String>> {
+    o.events.iter().filter(|e| e["ev"] == "probe").map(|e| strs(&e["args"])).collect()
+}
+
+#[derive(Default)]
+struct Stats {
+    n: usize,
+    runs: usize,
+    calls: usize,
+    by_fam: BTreeMap<String, usize>,
+    feats: BTreeMap<String, usize>,
+    nontrivial: usize,
+    interactive: usize,
+    mismatches: usize,
+    prompt_bytes: usize,
+}
+
+impl Stats {
+    fn merge(&mut self, o: Stats) {
+        self.n += o.n;
+        self.runs += o.runs;
+        self.calls += o.calls;
+        self.nontrivial += o.nontrivial;
+        self.interactive += o.interactive;
+        self.mismatches += o.mismatches;
+        self.prompt_bytes += o.prompt_bytes;
+        for (k, v) in o.by_fam {
+            *self.by_fam.entry(k).or_default() += v;
+        }
+        for (k, v) in o.feats {
+            *self.feats.entry(k).or_default() += v;
+        }
+    }
+}
+
+/// spec -> impl: one session line.  Returns a mismatch record if the real shell deviates.
+fn replay_session(e: &Value, st: &mut Stats) -> Option<Value> {
+    let fam = e["fam"].as_str().unwrap_or("").to_string();
+    let env: Vec<(String, String)> = e["env"]
+        .as_array()
+        .map(|a| a.iter().map(|p| (p[0].as_str().unwrap_or("").to_string(), p[1].as_str().unwrap_or("").to_string())).collect())
+        .unwrap_or_default();
+    let chunks = strs(&e["chunks"]);
+    let cfg = sess_cfg(
+        e["src"].as_str().unwrap_or("stdin"),
+        e["tin"].as_bool().unwrap_or(true),
+        e["terr"].as_bool().unwrap_or(true),
+        &strs(&e["args"]),
+        &env,
+        &chunks,
+        e["rc"].as_str().unwrap_or(""),
+    );
+    let o = run_session(&cfg);
+    st.runs += 1;
+    let feat = strs(&e["feat"]);
+    for f in &feat {
+        *st.feats.entry(f.clone()).or_default() += 1;
+    }
+    if e["inter"].as_bool().unwrap_or(false) {
+        st.interactive += 1;
+    }
+    let exp_ev: Vec<Vec<String>> = e["ev"].as_array().map(|a| a.iter().map(strs).collect()).unwrap_or_default();
+    let exp_out = e["out"].as_str().unwrap_or("");
+    if !o.stderr.is_empty() {
+        st.nontrivial += 1;
+        st.prompt_bytes += o.stderr.len();
+    }
+    let symptom = if o.outcome != "completed" {
+        "outcome"
+    } else if !pat::matches(&e["pat"], &o.stderr) {
+        "stderr"
+    } else if o.stdout != exp_out {
+        "stdout"
+    } else if events_of(&o) != exp_ev {
+        "events"
+    } else if o.unfed != 0 {
+        "unfed"
+    } else {
+        return None;
+    };
+    let good = pat::matched_prefix(&e["pat"], &o.stderr);
+    let key = json!({"dir": "spec->impl", "fam": fam, "symptom": symptom, "feat": feat.join(" "),
+                     "start": format!("{} {}{}{}", strs(&e["args"]).join(" "), e["src"].as_str().unwrap_or(""),
+                                      if cfg.stdin_tty { " tty-in" } else { "" }, if cfg.stderr_tty { " tty-err" } else { "" }),
+                     "ps": strs(&e["ps"]).join(" | "),
+                     "near": clip(&o.stderr[good.min(o.stderr.len())..], 12),
+                     "env": env.iter().map(|(n, v)| format!("{n}={v}")).collect::<Vec<_>>().join(" | ")});
+    let detail = format!(
+        "{symptom} differ from what Prompt.tla allows (outcome {} {}); stderr agrees up to byte {good}: expected instance {:?}, observed {:?}; stdout expected {:?} observed {:?}; events expected {:?} observed {:?}; unfed {}",
+        o.outcome, o.panic, clip(&pat::render(&e["pat"]), 600), clip(&o.stderr, 600), exp_out, clip(&o.stdout, 300), exp_ev, events_of(&o), o.unfed
+    );
+    Some(json!({"key": key, "detail": detail, "input": chunks, "sc": e, "obs": out_json(&o)}))
+}
+
+/// spec -> impl: one call-level case.
+fn replay_call(e: &Value, st: &mut Stats) -> Option<Value> {
+    let text = e["text"].as_str().unwrap_or("");
+    let first = e["first"].as_bool().unwrap_or(true);
+    let nou = e["nou"].as_bool().unwrap_or(false);
+    let x = e["x"].as_str().unwrap_or("<unset>");
+    let o = run_call(text, first, nou, if x == "<unset>" { None } else { Some(x) });
+    st.calls += 2;
+    let post = strs(&e["post"]);
+    // with an expansion error the variables afterwards are not specified
+    let open = e["pat"].as_array().map(|a| a.len() == 1 && a[0][0] == "X").unwrap_or(false);
+    let symptom = if o.outcome != "completed" {
+        "outcome"
+    } else if !pat::matches(&e["pat"], &o.direct) {
+        "expand_posix"
+    } else if !pat::matches(&e["pat"], &o.prompter) {
+        "prompter"
+    } else if o.line != "some line\n" {
+        "prompter-line"
+    } else if !open && (o.post_direct != post || o.post_prompter != post) {
+        "variables"
+    } else {
+        if !o.direct.is_empty() {
+            st.nontrivial += 1;
+        }
+        return None;
+    };
+    let shown = if symptom == "prompter" { &o.prompter } else { &o.direct };
+    let good = pat::matched_prefix(&e["pat"], shown);
+    let key = json!({"dir": "spec->impl", "fam": "call", "symptom": symptom, "ps": text, "first": first, "nounset": nou, "x": x,
+                     "near": clip(&shown[good.min(shown.len())..], 12), "feat": "call"});
+    let detail = format!(
+        "{symptom}: expand_posix({text:?}, excl={first}) with x={x:?} nounset={nou} gave {:?} (Prompter wrote {:?}, returned {:?}); expected instance {:?}; variables x,u,n after: {:?} / {:?}, expected {:?}; outcome {} {}",
+        o.direct, o.prompter, o.line, pat::render(&e["pat"]), o.post_direct, o.post_prompter, post, o.outcome, o.panic
+    );
+    Some(json!({"key": key, "detail": detail, "input": [text], "sc": e,
+                "obs": {"direct": o.direct, "prompter": o.prompter, "line": o.line, "post": o.post_direct}}))
+}
+
+fn replay(args: &[String]) {
+    let threads = opt_usize(args, "--threads", 8);
+    let lines: Vec<String> = util::open_in(args).lines().map(|l| l.unwrap()).filter(|l| !l.trim().is_empty()).collect();
+    let next = AtomicUsize::new(0);
+    let total = Mutex::new(Stats::default());
+    let out: Mutex<Vec<String>> = Mutex::new(vec![]);
+    std::thread::scope(|s| {
+        for _ in 0..threads {
+            s.spawn(|| {
+                let mut st = Stats::default();
+                loop {
+                    let i = next.fetch_add(1, Ordering::SeqCst);
+                    if i >= lines.len() {
+                        break;
+                    }
+                    let e: Value = serde_json::from_str(&lines[i]).expect("gen line");
+                    st.n += 1;
+                    let fam = e["fam"].as_str().unwrap_or("").to_string();
+                    *st.by_fam.entry(fam.clone()).or_default() += 1;
+                    let m = if fam == "call" { replay_call(&e, &mut st) } else { replay_session(&e, &mut st) };
+                    if let Some(m) = m {
+                        st.mismatches += 1;
+                        out.lock().unwrap().push(m.to_string());
+                    }
+                }
+                total.lock().unwrap().merge(st);
+            });
+        }
+    });
+    let mut w = util::open_out(args);
+    for m in out.lock().unwrap().iter() {
+        writeln!(w, "{m}").unwrap();
+    }
+    w.flush().unwrap();
+    let t = total.lock().unwrap();
+    println!(
+        "{}",
+        json!({"sessions": t.n, "shell_runs": t.runs, "calls": t.calls, "by_family": t.by_fam, "features": t.feats,
+               "nontrivial": t.nontrivial, "interactive": t.interactive, "mismatches": t.mismatches, "stderr_bytes": t.prompt_bytes})
+    );
+}
+
+fn record(c: &Cfg, evs: &[Ev]) -> Value {
+    let chunks = scen::render(evs);
+    let cfg = sess_cfg(&c.src, c.tin, c.terr, &c.args(), &c.env(), &chunks, &c.rc_text());
+    let o = run_session(&cfg);
+    json!({"cfg": c.json(), "es": evs.iter().map(|e| e.json()).collect::<Vec<_>>(), "chunks": chunks,
+           "obs": {"outcome": o.outcome, "panic": o.panic, "stderr": o.stderr, "stdout": o.stdout, "unfed": o.unfed,
+                   "ev": events_of(&o)}})
+}
+
+fn random(args: &[String]) {
+    let n = opt_usize(args, "--n", 1000);
+    let threads = opt_usize(args, "--threads", 8);
+    let seed = util::seed();
+    let next = AtomicUsize::new(0);
+    let recs: Mutex<Vec<(usize, String)>> = Mutex::new(vec![]);
+    let runs = AtomicUsize::new(0);
+    std::thread::scope(|s| {
+        for _ in 0..threads {
+            s.spawn(|| {
+                loop {
+                    let i = next.fetch_add(1, Ordering::SeqCst);
+                    if i >= n {
+                        break;
+                    }
+                    let mut rng = rand::rngs::StdRng::seed_from_u64(seed.wrapping_mul(1_000_003).wrapping_add(i as u64));
+                    let (c, evs) = scen::random_session(&mut rng);
+                    let r = record(&c, &evs);
+                    runs.fetch_add(1, Ordering::SeqCst);
+                    recs.lock().unwrap().push((i, r.to_string()));
+                }
+            });
+        }
+    });
+    let mut recs = recs.into_inner().unwrap();
+    recs.sort();
+    let mut out = util::open_out(args);
+    for (_, r) in &recs {
+        writeln!(out, "{r}").unwrap();
+    }
+    out.flush().unwrap();
+    println!("{}", json!({"records": recs.len(), "shell_runs": runs.load(Ordering::SeqCst), "seed": seed}));
+}
+
+fn one(args: &[String]) {
+    let mut text = String::new();
+    util::open_in(args).read_line(&mut text).ok();
+    let mut rest = String::new();
+    for l in util::open_in(args).lines().skip(1) {
+        rest.push_str(&l.unwrap());
+    }
+    text.push_str(&rest);
+    let v: Value = serde_json::from_str(&text).expect("session json");
+    let c = scen::cfg_of(&v["cfg"]);
+    let evs = scen::evs_of(&v["es"]);
+    let r = record(&c, &evs);
+    let mut out = util::open_out(args);
+    writeln!(out, "{r}").unwrap();
+    out.flush().unwrap();
+}
+
+fn demo_cfg(v: &Value) -> SessCfg {
+    SessCfg {
+        argv: strs(&v["argv"]),
+        stdin_tty: v["stdin_tty"].as_bool().unwrap_or(true),
+        stderr_tty: v["stderr_tty"].as_bool().unwrap_or(true),
+        chunks: strs(&v["chunks"]).into_iter().map(|s| s.into_bytes()).collect(),
+        script: v["script"].as_str().map(|s| s.as_bytes().to_vec()),
+        rc: v["rc"].as_str().map(|s| s.as_bytes().to_vec()),
+        env: v["env"].as_array().map(|a| a.iter().map(|p| (p[0].as_str().unwrap().to_string(), p[1].as_str().unwrap().to_string())).collect()).unwrap_or_default(),
+    }
+}
+
 fn main() {
-    eprintln!("yv-g11: not implemented yet");
-    std::process::exit(2);
+    let args: Vec<String> = std::env::args().collect();
+    util::quiet_panics();
+    match args.get(1).map(|s| s.as_str()) {
+        Some("replay") => replay(&args),
+        Some("random") => random(&args),
+        Some("one") => one(&args),
+        Some("demo") => {
+            let v: Value = serde_json::from_str(opt(&args, "--cfg").expect("--cfg JSON")).expect("json");
+            let o = run_session(&demo_cfg(&v));
+            println!("{}", serde_json::to_string_pretty(&out_json(&o)).unwrap());
+        }
+        _ => {
+            eprintln!("usage: yv-g11 replay|random|one|demo ...");
+            std::process::exit(2);
+        }
+    }
 }
